@@ -157,8 +157,8 @@ Definition sql_vacuum (sc : sconn) (corder : list name) (before : time) : prog r
   match sc_tb sc with
   | None => Ret (sc, ErrOther)
   | Some tb =>
-      bind (tbl_vacuum cfg corder tb before) (fun tb' =>
-        Ret (with_tb sc tb' (sc_conn sc) (sc_joined sc), OK))
+      bind (tbl_vacuum cfg corder tb before) (fun '(tb', derr) =>
+        Ret (with_tb sc tb' (sc_conn sc) (sc_joined sc), match derr with None => OK | Some _ => ErrOther end))
   end.
 
 Definition sql_set_deadline (sc : sconn) (dl : option time) : sconn :=
